@@ -165,7 +165,7 @@ theorem lrtr_ipv4_get_bits_eq (val : C.S_lrtr_ipv4_addr) (f n : BitVec 8) :
 theorem lrtr_ipv4_addr_equal_eq (a b : C.S_lrtr_ipv4_addr) :
     C.lrtr_ipv4_addr_equal a b = some (a.addr == b.addr) := by
   unfold C.lrtr_ipv4_addr_equal
-  c_close
+  by_cases h : a.addr = b.addr <;> simp [h, bne]
 
 /-! ## IPv6 -/
 
@@ -190,7 +190,11 @@ theorem lrtr_ipv6_addr_equal_eq (a b : C.S_lrtr_ipv6_addr) :
     C.lrtr_ipv6_addr_equal a b = some (toV6 a == toV6 b) := by
   unfold C.lrtr_ipv6_addr_equal
   rw [V6_beq_eq]
-  simp only [toV6] <;> c_close
+  simp only [toV6]
+  -- decide the four word equalities and let simp evaluate both sides (independent of the form of the C text: one
+  -- conjunction, a negated memcmp, an unrolled loop with early returns)
+  by_cases h0 : a.addr_0 = b.addr_0 <;> by_cases h1 : a.addr_1 = b.addr_1 <;> by_cases h2 : a.addr_2 = b.addr_2 <;>
+    by_cases h3 : a.addr_3 = b.addr_3 <;> simp [h0, h1, h2, h3, bne]
 
 /-- `lrtr_ipv6_get_bits` as translated from the C text is the literal model `ipv6GetBits`.
     It has a defined result exactly if `first_bit > 127` (early return of the zero address, before the assertions;
@@ -248,7 +252,10 @@ theorem lrtr_ip_addr_is_zero_eq (p : C.S_lrtr_ip_addr) :
     C.lrtr_ip_addr_is_zero p =
       some (if p.ver = 1#32 then (toV6 p.u.addr6).isZero else p.u.addr4.addr == 0#32) := by
   unfold C.lrtr_ip_addr_is_zero V6.isZero toV6
-  by_cases hv : p.ver = 1#32 <;> simp only [hv] <;> c_close
+  by_cases hv : p.ver = 1#32
+  · by_cases h0 : p.u.addr6.addr_0 = 0#32 <;> by_cases h1 : p.u.addr6.addr_1 = 0#32 <;>
+      by_cases h2 : p.u.addr6.addr_2 = 0#32 <;> by_cases h3 : p.u.addr6.addr_3 = 0#32 <;> simp [hv, h0, h1, h2, h3, bne]
+  · by_cases h4 : p.u.addr4.addr = 0#32 <;> simp [hv, h4, bne]
 
 /-- `lrtr_ip_addr_equal` (always defined): same version and equal address of that family -/
 theorem lrtr_ip_addr_equal_eq (a b : C.S_lrtr_ip_addr) :
